@@ -814,6 +814,309 @@ def m_range(it, ctx, a, m, f):
     raise Unsupported('range op ' + f)
 
 
+@model(r'^(Vec|IndexSet|VecDeque)::<.*>::retain::|^(Vec)::<.*>::retain_mut::')
+def m_retain(it, ctx, a, m, f):
+    v = L(a[0]); keep = []
+    for i in range(len(v)):
+        r = it.call_closure(ctx, a[1], [Ref(v, i)])
+        if ctx.decide(r):
+            keep.append(v[i])
+    v[:] = keep
+    return []
+
+
+@model(r'^IndexMap::<.*>::retain::')
+def m_imap_retain(it, ctx, a, m, f):
+    v = L(a[0]); keep = []
+    for e in v:
+        if ctx.decide(it.call_closure(ctx, a[1], [Ref(e, 0), Ref(e, 1)])):
+            keep.append(e)
+    v[:] = keep
+    return []
+
+
+@model(r'^(Vec|IndexSet|IndexMap|BTreeSet|BTreeMap|HashMap|String)::<?.*>?::clear$|^String::clear$')
+def m_clear(it, ctx, a, m, f):
+    r = a[0]
+    v = deref(r)
+    if isinstance(v, list):
+        v[:] = []
+    else:
+        r.set(SStr(()))
+    return []
+
+
+@model(r'^Vec::<.*>::truncate$')
+def m_truncate(it, ctx, a, m, f):
+    v = L(a[0]); del v[a[1]:]; return []
+
+
+@model(r'^Vec::<.*>::append$')
+def m_append(it, ctx, a, m, f):
+    v = L(a[0]); w = L(a[1]); v.extend(w); w[:] = []; return []
+
+
+@model(r'^Vec::<.*>::(swap_remove)$')
+def m_swap_remove(it, ctx, a, m, f):
+    v = L(a[0]); i = a[1]
+    if i >= len(v):
+        raise Panic('swap_remove index out of bounds')
+    x = v[i]; v[i] = v[-1]; v.pop()
+    return x
+
+
+@model(r'^Vec::<.*>::drain::<')
+def m_drain(it, ctx, a, m, f):
+    v = L(a[0]); r = deref(a[1])
+    if isinstance(r, Adt) and r.ty in ('Range',):
+        lo, hi = r.fields[0], r.fields[1]
+    elif isinstance(r, Adt) and r.ty == 'RangeFull' or r == []:
+        lo, hi = 0, len(v)
+    elif isinstance(r, Adt) and r.ty == 'RangeFrom':
+        lo, hi = r.fields[0], len(v)
+    elif isinstance(r, Adt) and r.ty == 'RangeTo':
+        lo, hi = 0, r.fields[0]
+    else:
+        raise Unsupported('drain range ' + repr(r))
+    if hi > len(v) or lo > hi:
+        raise Panic('drain range out of bounds')
+    out = v[lo:hi]; del v[lo:hi]
+    return Iter(out)
+
+
+@model(r'^(Vec::<.*>|slice::<impl \[.*\]>)::(reverse)$')
+def m_reverse(it, ctx, a, m, f):
+    L(a[0]).reverse(); return []
+
+
+@model(r'^slice::<impl \[.*\]>::(split_first|split_last)$')
+def m_split_first(it, ctx, a, m, f):
+    v = L(a[0])
+    if not v:
+        return NoneV()
+    if m.group(1) == 'split_first':
+        return Some([Ref(v, 0), v[1:]])
+    return Some([Ref(v, len(v) - 1), v[:-1]])
+
+
+@model(r'^slice::<impl \[.*\]>::(starts_with|ends_with)$')
+def m_slice_starts(it, ctx, a, m, f):
+    v = L(a[0]); w = L(a[1])
+    if len(w) > len(v):
+        return False
+    part = v[:len(w)] if m.group(1) == 'starts_with' else v[len(v) - len(w):]
+    return b_and(*[struct_eq(ctx, x, y) for x, y in zip(part, w)])
+
+
+@model(r'^slice::<impl \[.*\]>::concat::|^slice::<impl \[.*\]>::to_vec$')
+def m_concat(it, ctx, a, m, f):
+    v = L(a[0])
+    if 'to_vec' in f:
+        return clone_val(list(v))
+    out = []
+    for x in v:
+        out.extend(L(x))
+    return out
+
+
+@model(r'^IndexSet::<.*>::(shift_remove|swap_remove|remove)::<')
+def m_iset_remove(it, ctx, a, m, f):
+    v = L(a[0])
+    for i, y in enumerate(v):
+        if ctx.decide(struct_eq(ctx, y, a[1])):
+            del v[i]
+            return True
+    return False
+
+
+@model(r'^IndexSet::<.*>::(get_index|first|last)$')
+def m_iset_get_index(it, ctx, a, m, f):
+    v = L(a[0])
+    i = a[1] if m.group(1) == 'get_index' else (0 if m.group(1) == 'first' else len(v) - 1)
+    return Some(Ref(v, i)) if 0 <= i < len(v) else NoneV()
+
+
+@model(r'^IndexMap::<.*>::(get|get_mut)::<')
+def m_imap_get(it, ctx, a, m, f):
+    for e in L(a[0]):
+        if ctx.decide(struct_eq(ctx, e[0], a[1])):
+            return Some(Ref(e, 1))
+    return NoneV()
+
+
+@model(r'^IndexMap::<.*>::(contains_key)::<|^BTreeMap::<.*>::contains_key::<')
+def m_imap_contains(it, ctx, a, m, f):
+    for e in L(a[0]):
+        if ctx.decide(struct_eq(ctx, e[0], a[1])):
+            return True
+    return False
+
+
+@model(r'^IndexMap::<.*>::(into_iter|into_values|into_keys|values|keys|values_mut)$|^BTreeMap::<.*>::(into_iter|into_values|into_keys|values|keys|values_mut)$')
+def m_imap_into_iter(it, ctx, a, m, f):
+    kind = m.group(1) or m.group(2)
+    v = L(a[0])
+    if kind == 'into_iter': return Iter([[e[0], e[1]] for e in v])
+    if kind == 'into_values': return Iter([e[1] for e in v])
+    if kind == 'into_keys': return Iter([e[0] for e in v])
+    if kind in ('values', 'values_mut'): return Iter([Ref(e, 1) for e in v])
+    return Iter([Ref(e, 0) for e in v])
+
+
+@model(r'^BTreeSet::<.*>::insert$')
+def m_bset_insert(it, ctx, a, m, f):
+    return _set_insert(ctx, L(a[0]), a[1])
+
+
+@model(r'^BTreeSet::<.*>::contains::<')
+def m_bset_contains(it, ctx, a, m, f):
+    for y in L(a[0]):
+        if ctx.decide(struct_eq(ctx, y, a[1])):
+            return True
+    return False
+
+
+@model(r'^BTreeMap::<.*>::insert$')
+def m_bmap_insert(it, ctx, a, m, f):
+    mp = L(a[0]); key = a[1]
+    for e in mp:
+        if ctx.decide(struct_eq(ctx, e[0], key)):
+            old = e[1]; e[1] = a[2]
+            return Some(old)
+    i = 0
+    while i < len(mp) and ctx.decide(s_lt(S(mp[i][0]), S(key))):
+        i += 1
+    mp.insert(i, [key, a[2]])
+    return NoneV()
+
+
+@model(r'^Entry::<.*>::(or_insert|or_insert_with|or_default)(::<.*>)?$')
+def m_entry_or_insert(it, ctx, a, m, f):
+    e = a[0]
+    if e.variant == 'Occupied':
+        return Ref(e.fields[0], 1)
+    mp, key = e.fields[0]
+    kind = m.group(1)
+    v = a[1] if kind == 'or_insert' else it.call_closure(ctx, a[1], []) if kind == 'or_insert_with' else None
+    if kind == 'or_default':
+        raise Unsupported('Entry::or_default')
+    ent = [key, v]
+    i = 0
+    while i < len(mp) and ctx.decide(s_lt(S(mp[i][0]), S(key))):
+        i += 1
+    mp.insert(i, ent)
+    return Ref(ent, 1)
+
+
+@model(r'^iter::once::<|^once::<')
+def m_once(it, ctx, a, m, f):
+    return Iter([a[0]])
+
+
+@model(r'^iter::empty::<|^empty::<')
+def m_empty(it, ctx, a, m, f):
+    return Iter([])
+
+
+@model(r'Iterator>::(skip|take|step_by|nth)$')
+def m_skip_take(it, ctx, a, m, f):
+    i = deref(a[0]); k = m.group(1); n = a[1]
+    r = i.rest()
+    if k == 'skip': return Iter(r[n:])
+    if k == 'take': return Iter(r[:n])
+    if k == 'step_by': return Iter(r[::n])
+    i.items = r; i.pos = min(n + 1, len(r))
+    return Some(r[n]) if n < len(r) else NoneV()
+
+
+@model(r'Iterator>::(min|max)$')
+def m_minmax(it, ctx, a, m, f):
+    r = deref(a[0]).rest()
+    if not r: return NoneV()
+    if any(is_sym(deref(x)) for x in r): raise Unsupported('symbolic min/max')
+    return Some(min(r, key=deref) if m.group(1) == 'min' else max(r, key=deref))
+
+
+@model(r'Iterator>::sum::<')
+def m_sum(it, ctx, a, m, f):
+    return sum(deref(x) for x in deref(a[0]).rest())
+
+
+@model(r'Iterator>::partition::<')
+def m_partition(it, ctx, a, m, f):
+    yes = []; no = []
+    for x in deref(a[0]).rest():
+        (yes if ctx.decide(it.call_closure(ctx, a[1], [mkref(x)])) else no).append(x)
+    return [yes, no]
+
+
+@model(r'Iterator>::unzip::<')
+def m_unzip(it, ctx, a, m, f):
+    xs = []; ys = []
+    for p in deref(a[0]).rest():
+        p = deref(p); xs.append(p[0]); ys.append(p[1])
+    return [xs, ys]
+
+
+@model(r'Iterator>::(take_while|skip_while|map_while)::')
+def m_while(it, ctx, a, m, f):
+    kind = m.group(1); out = []
+    r = deref(a[0]).rest()
+    if kind == 'take_while':
+        for x in r:
+            if not ctx.decide(it.call_closure(ctx, a[1], [mkref(x)])): break
+            out.append(x)
+    elif kind == 'skip_while':
+        i = 0
+        while i < len(r) and ctx.decide(it.call_closure(ctx, a[1], [mkref(r[i])])): i += 1
+        out = r[i:]
+    else:
+        for x in r:
+            o = it.call_closure(ctx, a[1], [x])
+            if not is_some(o): break
+            out.append(o.fields[0])
+    return Iter(out)
+
+
+@model(r'Iterator>::(rposition|rfind)::')
+def m_rsearch(it, ctx, a, m, f):
+    r = deref(a[0]).rest()
+    for k in range(len(r) - 1, -1, -1):
+        arg = r[k] if m.group(1) == 'rposition' else mkref(r[k])
+        if ctx.decide(it.call_closure(ctx, a[1], [arg])):
+            return Some(k if m.group(1) == 'rposition' else r[k])
+    return NoneV()
+
+
+@model(r'Iterator>::(eq|ne)::<')
+def m_iter_eq(it, ctx, a, m, f):
+    x = deref(a[0]).rest(); y = L(a[1]) if not isinstance(deref(a[1]), Iter) else deref(a[1]).rest()
+    r = struct_eq(ctx, x, y)
+    return r if m.group(1) == 'eq' else b_not(r)
+
+
+@model(r'DoubleEndedIterator>::(next_back)$')
+def m_next_back(it, ctx, a, m, f):
+    i = deref(a[0])
+    if i.pos < len(i.items):
+        return Some(i.items.pop())
+    return NoneV()
+
+
+@model(r'Iterator>::(size_hint|len)$|ExactSizeIterator>::len$')
+def m_iter_len(it, ctx, a, m, f):
+    i = deref(a[0]); n = len(i.items) - i.pos
+    return n if 'size_hint' not in f else [n, Some(n)]
+
+
+@model(r'^Option::<.*>::(is_some_and|is_none_or)::<')
+def m_is_some_and(it, ctx, a, m, f):
+    o = deref(a[0]); some = o.variant == 'Some'
+    if m.group(1) == 'is_some_and':
+        return it.call_closure(ctx, a[1], [o.fields[0]]) if some else False
+    return it.call_closure(ctx, a[1], [o.fields[0]]) if some else True
+
+
 # ---------------------------------------------------------------- iterators (eager)
 @model(r' as IntoIterator>::into_iter$')
 def m_into_iter(it, ctx, a, m, f):
@@ -1217,7 +1520,7 @@ def m_hmap_contains(it, ctx, a, m, f):
 
 
 # ---------------------------------------------------------------- Option / Result
-@model(r'^Option::<.*?>::(\w+)(::<.*>)?$')
+@model(r'^Option::<.*?>::(?!is_some_and|is_none_or)(\w+)(::<.*>)?$')
 def m_option(it, ctx, a, m, f):
     meth = m.group(1)
     r0 = a[0]
